@@ -1,11 +1,85 @@
 package main
 
 import (
+	"flag"
 	"fmt"
+	"os"
+	"strings"
+	"time"
 
-	_ "golang.org/x/tools/go/packages"
-	_ "golang.org/x/tools/go/ssa"
-	_ "golang.org/x/tools/go/ssa/ssautil"
+	"verif/internal/engine"
+	"verif/internal/load"
 )
 
-func main() { fmt.Println("ok") }
+func main() {
+	debugArms := flag.Bool("debug-arms", false, "")
+	only := flag.String("only", "", "")
+	mut := flag.String("mut", "", "file|old|new[|occ]")
+	flag.Parse()
+	t0 := time.Now()
+	cfg := load.Config{}
+	if *mut != "" {
+		f := strings.Split(*mut, "|")
+		m := load.Mutant{File: f[0], Old: f[1], New: f[2]}
+		if len(f) > 3 {
+			fmt.Sscan(f[3], &m.Occurrence)
+		}
+		ov, ok, err := m.Overlay(load.RepoDir())
+		if !ok || err != nil {
+			fmt.Println("mutant anchor not found", err)
+			os.Exit(3)
+		}
+		cfg.Overlay = ov
+	}
+	p, err := load.Load(cfg)
+	if err != nil {
+		fmt.Println(err)
+		os.Exit(2)
+	}
+	fmt.Printf("loaded in %.1fs\n", time.Since(t0).Seconds())
+	e, err := engine.New(p)
+	if err != nil {
+		fmt.Println(err)
+		os.Exit(2)
+	}
+	fmt.Println("decoder:", e.Exec, "switches:", e.SwitchCases, e.ConstCases, "leaves:", len(e.Leaves))
+	if *debugArms {
+		t1 := time.Now()
+		var results []*engine.ArmResult
+		if *only != "" {
+			for _, s := range e.AllSpecs() {
+				if s.String() == *only {
+					results = append(results, e.CompareArm(s))
+				}
+			}
+		} else {
+			results = e.CompareAll()
+		}
+		bad, und, impl := 0, 0, 0
+		for _, r := range results {
+			if r.Implemented {
+				impl++
+			}
+			if r.Undecided != nil {
+				und++
+				fmt.Printf("%-12s %-20s %s UNDECIDED %v\n", r.Enc, r.Info.Name, r.Pos, r.Undecided)
+				continue
+			}
+			if len(r.Diffs) > 0 {
+				bad++
+				fmt.Printf("%-12s %-20s %s [%s] impl=%v\n", r.Enc, r.Info.Name, r.Pos, r.Info.Status, r.Implemented)
+				for _, d := range r.Diffs {
+					fmt.Println("      ", d)
+				}
+				if *only != "" {
+					fmt.Println("  impl events:", r.ImplEvents)
+					fmt.Println("  ref events: ", r.RefEvents)
+				}
+			} else if *only != "" {
+				fmt.Printf("%-12s %-20s %s OK impl=%v %s\n", r.Enc, r.Info.Name, r.Pos, r.Implemented, r.Note)
+				fmt.Println("  impl events:", r.ImplEvents)
+			}
+		}
+		fmt.Printf("arms=%d implemented=%d bad=%d undecided=%d in %.1fs\n", len(results), impl, bad, und, time.Since(t1).Seconds())
+	}
+}
